@@ -4,6 +4,7 @@ import (
 	"fmt"
 	"go/token"
 	"go/types"
+	"math/big"
 
 	"golang.org/x/tools/go/ssa"
 )
@@ -380,6 +381,9 @@ func (in *Interp) loadPtr(st *State, p Ptr, pos token.Pos) Value {
 
 func (in *Interp) storePtr(st *State, p Ptr, v Value, pos token.Pos) {
 	in.logAccess(st, p.Obj, p.Path, true, pos)
+	if st.heap[p.Obj].Tag == "arrayview-copy" {
+		panic(endPath{kind: "unsupported", msg: "store through an array pointer converted from the middle of a slice", pos: pos})
+	}
 	if p.Sym == nil {
 		st.store(p, v)
 		return
@@ -465,6 +469,22 @@ func (in *Interp) selectElem(elems []Value, idx *Term) Value {
 	rt, ok := res.(*Term)
 	if !ok {
 		return Poison{"symbolic index over non-scalar elements"}
+	}
+	if len(elems) >= 4 {
+		allConst := true
+		for _, e := range elems {
+			if t, ok := e.(*Term); !ok || !t.IsConst() || t.W != rt.W {
+				allConst = false
+				break
+			}
+		}
+		if allConst {
+			tbl := make([]*big.Int, len(elems))
+			for i, e := range elems {
+				tbl[i] = e.(*Term).C
+			}
+			return in.tf.TableSel(tbl, rt.W, idx)
+		}
 	}
 	for i := len(elems) - 2; i >= 0; i-- {
 		et, ok := elems[i].(*Term)
@@ -594,7 +614,11 @@ func (in *Interp) sliceToArrayPtr(st *State, x *ssa.SliceToArrayPointer, v Value
 	if s.Off == 0 && len(a.E) == n {
 		return Ptr{Obj: s.Obj, Path: s.Path}
 	}
-	return Poison{"slice->array pointer into the middle of an array"}
+	// a view into the middle of an array: modelled by a copy, which is exact for
+	// the value conversion [N]T(slice); writing through it is refused (storePtr)
+	e := make([]Value, n)
+	copy(e, a.E[s.Off:s.Off+n])
+	return Ptr{Obj: st.alloc(Array{E: e}, "arrayview-copy")}
 }
 
 func (in *Interp) typeAssert(st *State, x *ssa.TypeAssert, v Value) Value {
